@@ -46,8 +46,8 @@ PROP = "C07"
 LEVEL = "exploration"
 HOOKS = False
 RULE = ("(1) product: documented redirect spelling x stage kind (external / threaded alias / unthreadable alias) x pipeline "
-        "position x neighbour kind x $THREAD_SUBPROCS x capture form x target state, complete in thorough, seeded sample of "
-        "operator groups in quick; (2) generated pipelines of 1-3 stages with 0-3 redirects per stage, whitespace and target-form "
+        "position x neighbour kind x $THREAD_SUBPROCS x capture form x target state, and every ordered pair of operator classes on "
+        "one stage x kind x position x capture form; complete in thorough, seeded sample in quick; (2) generated pipelines of 1-3 stages with 0-3 redirects per stage, whitespace and target-form "
         "variants, malformed operators; every case has >= 1 redirect or pipe, non-trivial = every case; distinct = hash of the "
         "case (rendered source + configuration)")
 
@@ -529,7 +529,8 @@ def _setup(scratch):
         resource.setrlimit(resource.RLIMIT_NOFILE, (hard if hard != resource.RLIM_INFINITY else max(soft, 65536), hard))
     except Exception:  # noqa: BLE001
         pass
-    _state.update(session=session, cwd=cwd, scratch=scratch, tfd=tfd, immutable=[], ro_ok=None,
+    _state.update(session=session, cwd=cwd, scratch=scratch, tfd=tfd, immutable=[], ro_ok=None, flaky=[],
+                  py_std=(sys.stdin, sys.stdout, sys.stderr),
                   atag=None, utag=None,
                   open={e["id"] for e in common.load_known(PROP) if e.get("status") == "open"})
     signal.signal(signal.SIGALRM, _alarm)
@@ -585,7 +586,7 @@ class _Terminal:
         except Exception:  # noqa: BLE001
             pass
         self.saved_fd = (os.dup(0), os.dup(1), os.dup(2))
-        self.saved_py = (sys.stdin, sys.stdout, sys.stderr)
+        self.saved_py = st["py_std"]
         for fd in st["tfd"]:
             os.ftruncate(fd, 0)
         nul = os.open(os.devnull, os.O_RDONLY)
@@ -597,6 +598,18 @@ class _Terminal:
                                       write_through=True)
         sys.stderr = io.TextIOWrapper(io.FileIO(2, "w", closefd=False), encoding="utf-8", errors="surrogateescape",
                                       write_through=True)
+        # xonsh's per-thread dispatchers fall back to the sys.stdout/sys.stderr objects of import time, i.e. to the
+        # terminal; point them at this case's terminal objects so that a stream object closed by one case (xonsh can
+        # close the fallback object when two threaded aliases race on sys.stdout) cannot poison the next one
+        try:
+            from xonsh.procs import proxies
+
+            proxies.STDOUT_DISPATCHER.default = sys.stdout
+            proxies.STDERR_DISPATCHER.default = sys.stderr
+            proxies.STDOUT_DISPATCHER.registry.clear()
+            proxies.STDERR_DISPATCHER.registry.clear()
+        except Exception:  # noqa: BLE001
+            pass
         return self
 
     def __exit__(self, *a):
@@ -789,6 +802,8 @@ def compare(case, exp, obs):
                     obs["touched"] = obs.get("touched", 0) + 1     # created empty / truncated a `>` target
                 else:
                     probs.append("target-touched: file %s was %r, now %r" % (name, init.get(name), lines))
+        if obs["stray"]:
+            probs.append("stray files created: %r" % (obs["stray"],))
         return probs
     if obs["exc"] != exp.get("crash"):
         if obs["exc"] is not None:
@@ -851,7 +866,24 @@ def _signature(case, probs):
 
 
 def check_case(case):
-    """-> (Failure | None, labels, obs).  None failure = property held on this case."""
+    """-> (Failure | None, labels, obs).  None failure = property held on this case.
+
+    A failure that is not the exact symptom of a recorded finding is re-executed (twice; a hang once): only a failure
+    that reproduces every time is reported.  A case that fails once and passes on re-execution is a scheduling race in
+    the threaded pipeline machinery (seen under CPU contention on the unchanged tree: lost last stderr line of !( ),
+    deadlock of `$[alias | alias]`) - that is the subject of C06/C09; here it is counted as inconclusive and noted."""
+    f, labels, obs = _check_once(case)
+    if f is None or f.finding is not None:
+        return f, labels, obs
+    for _ in range(1 if f.kind == "hang" else 2):
+        f2, l2, o2 = _check_once(case)
+        if f2 is None or f2.finding is not None:
+            _state["flaky"].append("%s: %s" % (f.kind, f.detail[:300]))
+            return f2, l2 + ["flaky:" + f.kind], o2
+    return f, labels, obs
+
+
+def _check_once(case):
     try:
         exps = expectations(case)
     except Undefined:
@@ -984,6 +1016,61 @@ def group_cases(g):
         yield {"cap": cap, "ts": ts, "stages": stages}
 
 
+PAIR_CLASSES = [("out", "w"), ("out", "a"), ("err", "w"), ("err", "a"), ("all", "w"), ("all", "a"), ("e2o",), ("o2e",), ("a2p",),
+                ("e2p",), ("in",)]
+
+
+def pair_cases():
+    """Every ordered pair of operator classes on one stage (compatible and conflicting) x stage kind x position x
+    capture form; the spelling of each operator is picked by a fixed hash so that all spellings take part."""
+    for a in PAIR_CLASSES:
+        for b in PAIR_CLASSES:
+            for kind, pos in [("ext", "only"), ("ext", "first"), ("ext", "middle"), ("ext", "last"), ("thr", "only"), ("thr", "first"),
+                              ("thr", "middle"), ("thr", "last"), ("unt", "only")]:
+                for cap in CAPS:
+                    redirs = []
+                    for k, sem in enumerate((a, b)):
+                        sps = sorted(SEMGROUPS[sem])
+                        red = {"op": sps[int(common.h64((a, b, kind, pos, cap, k)), 16) % len(sps)]}
+                        if sem not in NO_TARGET:
+                            red["tgt"] = {"name": "t%d.txt" % k, "state": "existing", "form": "plain"}
+                            red["sp"] = " "
+                        redirs.append(red)
+                    x = {"kind": kind, "redirs": redirs}
+                    nb = {"kind": "ext", "redirs": []}
+                    stages = {"only": [x], "first": [x, nb], "middle": [nb, x, dict(nb)], "last": [nb, x]}[pos]
+                    yield {"cap": cap, "ts": True, "stages": stages}
+
+
+def worker_pairs(arg):
+    shard, nshards, seed, permille, scratch = arg
+    _setup(scratch)
+    st = Stats()
+    try:
+        for ci, case in enumerate(pair_cases()):
+            if ci % nshards != shard:
+                continue
+            if permille < 1000 and int(common.h64(("c07p", seed, ci)), 16) % 1000 >= permille:
+                continue
+            if _state.get("hangs", 0) >= MAX_HANGS:
+                st.inconclusive += 1
+                continue
+            f, labels, obs = check_case(case)
+            if "undefined" in labels:
+                st.hist["pairs:undefined-by-docs"] += 1
+                continue
+            st.case(case_key(case), True, ["pairs"] + labels + case_labels(case), sample=case, max_per_label=1)
+            if f is not None:
+                st.fail(f)
+                if f.finding:
+                    st.excluded_known[f.finding] += 1
+    finally:
+        _clear_immutable()
+    st.failures = _dedupe(st.failures)
+    _flush_flaky(st)
+    return st
+
+
 def _norm_obs(obs):
     return {"exc": obs["exc"], "places": {k: sorted(v) for k, v in obs["places"].items()},
             "files": {k: (None if v is None else sorted(v)) for k, v in obs["files"].items()}}
@@ -1032,7 +1119,16 @@ def worker_product(arg):
     finally:
         _clear_immutable()
     st.failures = _dedupe(st.failures)
+    _flush_flaky(st)
     return st
+
+
+def _flush_flaky(st):
+    fl = _state.get("flaky", [])
+    st.inconclusive += len(fl)
+    for x in fl[:3]:
+        st.notes.append("flaky (failed once, passed when re-executed; not judged): " + x)
+    _state["flaky"] = []
 
 
 def _case_size(f):
@@ -1224,6 +1320,7 @@ def worker_generated(arg):
         st.failures = out
     finally:
         _clear_immutable()
+    _flush_flaky(st)
     return st
 
 
@@ -1244,6 +1341,7 @@ def worker_malformed(arg):
     finally:
         _clear_immutable()
     st.failures = _dedupe(st.failures)
+    _flush_flaky(st)
     return st
 
 
@@ -1324,10 +1422,14 @@ def main(run):
         if thorough:
             run.exhaustive = True
             run.extra["exhaustive_subspace"] = ("%d single-redirect cases: %d spellings (+ prefix `< f cmd`) x 20 (kind, position, neighbour, "
-                                                "THREAD_SUBPROCS) cells x 5 capture forms x 4 target states (file operators)" % (
-                                                    ncases, len(TABLE)))
+                                                "THREAD_SUBPROCS) cells x 5 capture forms x 4 target states (file operators); plus every "
+                                                "ordered pair of the 11 operator classes on one stage x 9 (kind, position) x 5 capture "
+                                                "forms with hash-picked spellings" % (ncases, len(TABLE)))
+        ppm = 1000 if thorough else 250
+        common.pool_map(run, __name__, "worker_pairs", [(w, nw, run.seed, ppm, run.scratch) for w in range(nw)], procs=nw)
+        run.extra["pairs_product"] = {"cases": sum(1 for _ in pair_cases()), "sampled_permille": ppm}
         common.pool_map(run, __name__, "worker_malformed", [run.scratch], procs=1)
-        per = run.n(600, 5000)
+        per = run.n(500, 16000)
         ngw = 12 if not thorough else 16
         common.pool_map(run, __name__, "worker_generated",
                         [(common.worker_seed(run.seed, 50 + w), per, run.scratch) for w in range(ngw)], procs=ngw)
